@@ -8,8 +8,17 @@ they call, and the point-wise Montgomery products in key generation, signing, ve
 derivation and (de)serialisation closures.  Each is discharged per calling context under the range
 the callers establish.
 
-Not decided here: that the transforms are the FIPS 204 linear maps (needs the linear-forms tier,
-not built) - see DESIGN.md.
+Functional half, linear part (LIN tier): one symbolic run of every instance of ntt / inv_ntt /
+to_mont with all 256*KL input coefficients as named symbols yields, for every output coefficient, a
+linear form modulo q over the inputs.  The 256 x 256 matrix of each polynomial is compared entry by
+entry with FIPS 204:  NTT(w)[j] = sum_i zeta^((2*brv8(j)+1)*i) * w_i  (Alg. 41, zeta = 1753),
+NTT^-1 its inverse incl. the factor 256^-1 and a canonical output range [0, q-1] (Alg. 42),
+to_mont(x) = 2^32 * x.  Polynomials do not mix.  Together with the contract of mont_reduce
+(a * 2^-32, C15) the point-wise products are the FIPS products; that NTT diagonalises the negacyclic
+product is textbook mathematics.
+
+Not decided: the bilinear compositions themselves (A-hat o NTT(s), c-hat o s-hat) as polynomial
+identities - see DESIGN.md.
 """
 import os
 import sys
@@ -33,6 +42,67 @@ def in_pipeline(site):
     return False
 
 
+Q = 8380417
+
+
+def brv8(x):
+    return int("{:08b}".format(x)[::-1], 2)
+
+
+def transforms_are_fips(rep, tier):
+    import aicheck
+    import vlib
+    sizes = {"ntt::ntt": [1, 4] if tier == "quick" else [1, 4, 5, 6, 7, 8], "ntt::inv_ntt": [4] if tier == "quick" else [4, 5, 6, 7, 8],
+             "helpers::to_mont": [4] if tier == "quick" else [4, 5, 6, 7, 8]}
+    rng = {"ntt::ntt": "-524288..524288", "ntt::inv_ntt": "-40000000..40000000", "helpers::to_mont": "-34000000..34000000"}
+    jobs = {}
+    for fn, ns in sizes.items():
+        for n in ns:
+            jobs["%s::<%d>" % (fn, n)] = [("m", "%s::<%d_usize>" % (fn, n), {"atoms.arg0": "each", "atoms.big": "1", "elems.arg0": rng[fn], "lin.cap": "600", "modulus": str(Q), "dump_lin": "1"})]
+    res, errs = aicheck.run_sets(jobs, timeout=3000)
+    roots = [pow(1753, 2 * brv8(j) + 1, Q) for j in range(256)]
+    inv256 = pow(256, Q - 2, Q)
+    out = {}
+    for key in jobs:
+        fn, n = key.rsplit("::<", 1)
+        n = int(n[:-1])
+        r = res.get(key)
+        if r is None or r["jobs"][0].get("error") or r["jobs"][0].get("lin_dump") is None or r["unmodelled"] or r["unsupported"]:
+            vlib.fail_closed(rep, "transform-run:%s" % key, (errs.get(key) or str(r and r["jobs"][0].get("error")))[-600:])
+            continue
+        j = r["jobs"][0]
+        d = j["lin_dump"]
+        bad = None
+        checked = 0
+        if len(d) != 256 * n:
+            bad = {"leaves": len(d), "expected": 256 * n}
+        for x in [x for x in r["sites"] if x["violated"]]:
+            rep.violation("F:obligation:%s:%s" % (fn, aicheck.stable_key(x)), aicheck.site_report(x))
+        for p in range(n if bad is None else 0):
+            for o in range(256):
+                leaf = d[p * 256 + o]
+                if leaf is None or leaf[0] != Q or leaf[1] % Q != 0:
+                    bad = bad or {"polynomial": p, "output": o, "form": str(leaf)[:120]}
+                    continue
+                got = {nm: c % Q for nm, c in leaf[2]}
+                if fn == "helpers::to_mont":
+                    want = {"arg0[%d]" % (p * 256 + o): pow(2, 32, Q)}
+                elif fn == "ntt::ntt":
+                    want = {"arg0[%d]" % (p * 256 + i): pow(roots[o], i, Q) for i in range(256)}
+                else:
+                    want = {"arg0[%d]" % (p * 256 + jj): inv256 * pow(roots[jj], (Q - 1 - o) % (Q - 1), Q) % Q for jj in range(256)}
+                if got != want:
+                    k0 = next((k for k in want if got.get(k) != want[k]), None) or next(iter(set(got) - set(want)), None)
+                    bad = bad or {"polynomial": p, "output": o, "input": k0, "code_coefficient": got.get(k0), "fips_coefficient": want.get(k0)}
+                checked += len(want)
+                if fn == "ntt::inv_ntt" and not (leaf[3] >= 0 and leaf[4] <= Q - 1):
+                    bad = bad or {"polynomial": p, "output": o, "range": leaf[3:5], "expected": [0, Q - 1]}
+        if bad is not None:
+            rep.violation("F:matrix:%s" % fn, {"rule": "the transform is the FIPS 204 linear map modulo q (every matrix entry compared)", "instance": key, "first_mismatch": bad})
+        out[key] = {"matrix_entries_checked": checked, "abstract_steps": j["steps"]}
+    return out
+
+
 def main(tier):
     rep, cov = c13.run("C18", tier, site_filter=in_pipeline,
                        title="overflow / range obligations inside the NTT - pointwise product - inverse NTT pipeline, per calling context")
@@ -40,8 +110,9 @@ def main(tier):
         import vlib
         vlib.fail_closed(rep, "pipeline-site-floor", "only %d pipeline obligations found (floor 100)" % cov["obligations"])
     cov["checker_cmd"] = cov["checker_cmd"].replace("C13", "C18")
+    cov["transforms_vs_fips"] = transforms_are_fips(rep, tier)
     level = "proof" if cov["not_discharged"] == 0 else "other"
-    return rep.finish(level, cov, ["soundness of the interval / congruence / affine domains", "functional correctness of the transforms is not decided here"])
+    return rep.finish(level, cov, ["soundness of the interval / congruence / affine domains", "the bilinear compositions (products of two transformed vectors) are not decided as polynomial identities"])
 
 
 if __name__ == "__main__":
